@@ -90,6 +90,7 @@ def _probe():
         ("pty_timed_out", lambda r: r.run("sleep 5", pty=True, timeout=0.2, **quiet)),
         ("options", lambda r: r.run("echo $X", env={"X": "1"}, shell="/bin/sh", echo=True, echo_stdin=True, encoding="latin-1", **quiet)),
         ("dry", lambda r: r.run("echo hi", dry=True, **quiet)),
+        ("broken_pipe", lambda r: r.run("true", hide=True, in_stream=io.StringIO("x" * 300), echo_stdin=False)),
     ]
     old = (sys.stdout, sys.stderr)
     # the pty path sets the window size from sys.stdout's terminal: give it a (never read, tiny-output) terminal
